@@ -1,40 +1,60 @@
 // C19 — order validation accepts a point only if it is newer than all accepted before.
 //
-// A real table with validate_order=true and one catch-all capture route is driven by 1..8
+// Real tables with validate_order=true and one catch-all capture route are driven by 1..8
 // dispatcher goroutines calling Table.Dispatch. Every line carries a unique id in its value token;
 // Dispatch to a capture route is synchronous, so "the line was forwarded" is decided when the call
-// returns: accepted = the id is in the capture route. Each call is recorded as
-// {client, name, ts, call stamp, return stamp, accepted}, the stamps coming from one atomic counter.
+// returns: forwarded = the id is in the capture route. Each call is recorded as
+// {client, name, ts, call stamp, return stamp, outcome}, the stamps coming from one atomic counter.
+//
+// The tables are built in four ways (minimal TOML; TOML with blacklist / [[aggregation]] /
+// [[rewriter]] / [[route]] sections; table.New on a TableConfig plus Add* calls; TOML whose
+// [init] cmds build the entries) and, in half of the histories, their configuration is changed
+// while the points arrive: routes, blacklist entries, rewriters and aggregators are added,
+// deleted and (routes) modified, through the Table methods the admin interfaces call and, for a
+// few, through the admin command itself (see admin.go). The catch-all capture route is never
+// touched, so the observation stays what it was. Order validation sits before the blacklist
+// (properties.jsonl, anchors): every valid line takes part, whatever the table holds. The only
+// thing that changes for the oracle is that a line whose name a blacklist entry installed by the
+// history matches reaches no route whether it was rejected or accepted: such a call is
+// "unobserved" (oracle.OrderUnobserved) when a matching entry may have been in force during it.
+//
+// Timestamps: 1..R as before, and in half of the histories every sixth point takes a boundary
+// value: 0, a fraction that truncates to 0, 1, the timestamp last generated for the name, that
+// minus 1, that plus a fraction (10.2 / 10.9 are the same second), 2^31-1, 2^31, 2^32-2, 2^32-1,
+// 4294967295.5. The model speaks about the whole second the field truncates to.
 //
 // Verdict-bearing observations, per history:
 //   - each canonical name's sub-history must be linearizable (porcupine v1.3.0) with respect to the
-//     max-register specification oracle.MaxRegStep (accept <=> ts > newest accepted; accept sets it).
+//     specification oracle.OrderStep (pass <=> ts > newest accepted; passing sets it).
 //     Canonical name = one leading dot stripped: carbon20.ValidatePacket (go-metrics20 validate.go,
 //     "graphite graciously allows a leading dot by pretending it's not there") returns the name
 //     without it and that is the key Table.Dispatch hands to validate.Ordered.
 //     A checker time-out (60 s per name) is inconclusive, never a violation.
 //   - three consequences of the specification that need no search (clearer witnesses, and still
-//     decided when the search times out): two accepted points of a name with the same timestamp;
-//     a point accepted although a point of the name with a timestamp >= its own had been accepted
+//     decided when the search times out): two forwarded points of a name with the same timestamp;
+//     a point forwarded although a point of the name with a timestamp >= its own had been forwarded
 //     by a call that returned before this one began; a point rejected although its timestamp is
 //     greater than that of every other point of the name whose call began before this one returned.
-//   - single-dispatcher histories: exact agreement with the sequential oracle, and accepted
-//     timestamps of a name strictly increasing in capture-route arrival order (with several
-//     dispatchers arrival order says nothing: accept and forward are not one atomic step and the
-//     property does not ask for that).
-//   - unit=Err.type=out_of_order delta == number of rejected calls; direction=in delta == calls;
-//     invalid/unroutable/blacklist deltas == 0.
+//   - single-dispatcher histories (configuration changes happen between two calls there): exact
+//     agreement with the sequential oracle, and forwarded timestamps of a name strictly increasing
+//     in capture-route arrival order (with several dispatchers arrival order says nothing: accept
+//     and forward are not one atomic step and the property does not ask for that).
+//   - per round: direction=in delta == calls; out_of_order + blacklist deltas == calls that were not
+//     forwarded; rejected calls <= out_of_order delta <= rejected + unobserved calls;
+//     invalid/unroutable deltas == 0.
 //   - every rejected line is reported by Table.Bad(): the record of the name (BadMetrics keeps the
 //     last record per name) exists, carries the not-newer error and one of the name's rejected lines
 //     (single dispatcher: looked up after every reject, must be exactly that line); names without a
 //     reject have no record. Lookups retry by bounded steps (the report is filled through a channel).
-//   - a rejected line is in no capture route at the end; no id is captured twice.
+//   - a rejected line is in no route at the end (the catch-all one and every capture route the
+//     configuration changes added); no id is captured twice.
 //   - the Go race detector, scoped by the driver to reports with validate.Ordered on both sides.
 package main
 
 import (
 	"bytes"
 	"fmt"
+	"math"
 	"os"
 	"runtime"
 	"sort"
@@ -45,7 +65,6 @@ import (
 	"time"
 
 	"github.com/anishathalye/porcupine"
-	"github.com/grafana/carbon-relay-ng/matcher"
 	"github.com/grafana/carbon-relay-ng/table"
 
 	"verifharness/mon"
@@ -53,9 +72,10 @@ import (
 )
 
 type opSpec struct {
-	Name int  // index into history names
-	Dot  bool // written with a leading dot
-	TS   uint32
+	Name int    // index into history names
+	Dot  bool   // written with a leading dot
+	TS   uint32 // the whole second the timestamp field truncates to
+	Text string // the timestamp field as written
 }
 
 type history struct {
@@ -64,6 +84,8 @@ type history struct {
 	Clients [][]opSpec
 	Range   int
 	Base    uint32
+	Edgy    bool        // boundary timestamps mixed in
+	Admin   []adminSpec // configuration changes applied while the points arrive
 }
 
 type opRec struct {
@@ -71,12 +93,64 @@ type opRec struct {
 	Name     string `json:"name"` // as written
 	canon    string
 	TS       uint32 `json:"ts"`
+	Text     string `json:"timestamp_field"`
 	ID       int    `json:"id"`
 	Call     int64  `json:"call"`
 	Ret      int64  `json:"return"`
-	Accepted bool   `json:"accepted"`
+	Accepted bool   `json:"forwarded"`
+	Outcome  string `json:"outcome"` // forwarded | rejected | unobserved (a blacklist entry for the name may have dropped it)
+	class    int    // oracle.OrderForwarded / OrderRejected / OrderUnobserved
 	arrival  int64
 	line     string
+}
+
+var outcomeName = map[int]string{oracle.OrderForwarded: "forwarded", oracle.OrderRejected: "rejected", oracle.OrderUnobserved: "unobserved"}
+
+func utoa(v uint32) string { return strconv.FormatUint(uint64(v), 10) }
+
+// edge returns a boundary timestamp; last is the timestamp generated last for the name.
+func edge(r *mon.Rng, last uint32, wide bool) (uint32, string) {
+	switch r.Intn(20) {
+	case 0, 1, 2:
+		return 0, "0"
+	case 3:
+		return 0, "0.5"
+	case 4:
+		return 0, r.Pick([]string{"0.9", "0.0", "0.001"})
+	case 5, 6:
+		return 1, r.Pick([]string{"1", "1", "1.0", "1.5"})
+	case 7, 8, 9:
+		return last, utoa(last) // equal to the last one
+	case 10, 11:
+		if last > 0 {
+			return last - 1, utoa(last - 1)
+		}
+		return 0, "0"
+	case 12, 13, 14:
+		return last, utoa(last) + r.Pick([]string{".2", ".9", ".0", ".5"}) // the same second
+	case 15, 16:
+		if last < math.MaxUint32 {
+			return last + 1, utoa(last+1) + r.Pick([]string{"", ".5"})
+		}
+		return last, utoa(last)
+	case 17:
+		return last, utoa(last) + ".999"
+	}
+	if !wide {
+		// the largest timestamps end a name's history (nothing is newer afterwards): a quarter of the draws only
+		return last, utoa(last)
+	}
+	switch r.Intn(6) {
+	case 0:
+		return 2147483647, "2147483647"
+	case 1:
+		return 2147483648, "2147483648"
+	case 2:
+		return 4294967294, "4294967294"
+	case 3:
+		return 4294967295, "4294967295.5"
+	}
+	return 4294967295, "4294967295"
 }
 
 func gen(seed uint64, idx int) history {
@@ -95,6 +169,7 @@ func gen(seed uint64, idx int) history {
 	if r.Chance(1, 10) {
 		h.Base = 4294967295 - 30 // timestamps up to 2^32-1
 	}
+	h.Edgy = r.Chance(1, 2)
 	dotty := make([]bool, nn)
 	for k := range dotty {
 		dotty[k] = r.Chance(1, 2)
@@ -102,6 +177,15 @@ func gen(seed uint64, idx int) history {
 	hot := r.Intn(nn)       // one name takes about half of the traffic
 	trend := r.Intn(3)      // 0 uniform, 1 and 2: rising with stragglers
 	mixed := r.Chance(1, 2) // shifted histories: a quarter of the points stay low (2^32-1 next to 1)
+	edgeOneIn := 6
+	if nd == 1 {
+		edgeOneIn = 4 // a single dispatcher makes few calls
+	}
+	last := make([]uint32, nn)
+	for k := range last {
+		last[k] = uint32(r.Range(1, h.Range))
+	}
+	total := 0
 	for c := 0; c < nd; c++ {
 		n := r.Range(10, 40)
 		var ops []opSpec
@@ -124,56 +208,49 @@ func gen(seed uint64, idx int) history {
 			if b != 0 && mixed && r.Chance(1, 4) {
 				b = 0
 			}
-			ops = append(ops, opSpec{Name: k, Dot: dotty[k] && r.Chance(1, 3), TS: b + uint32(x)})
+			ts := b + uint32(x)
+			text := utoa(ts)
+			if h.Edgy && r.Chance(1, edgeOneIn) {
+				ts, text = edge(r, last[k], r.Chance(1, 4))
+			}
+			last[k] = ts
+			ops = append(ops, opSpec{Name: k, Dot: dotty[k] && r.Chance(1, 3), TS: ts, Text: text})
 		}
 		h.Clients = append(h.Clients, ops)
+		total += n
+	}
+	if r.Chance(1, 2) {
+		h.Admin = genAdmin(r, nn, nd, total, len(h.Clients[0]))
 	}
 	return h
 }
 
-// world is one real table with its capture route, reused for a block of histories.
-type world struct {
-	tab     *table.Table
-	cap     *mon.CaptureRoute
-	arrived []int64 // per id: arrival sequence number at the capture route (0 = never)
-	arrSeq  int64
-	dup     int64
-}
+// recent holds the lines of the Dispatch calls begun last, over all tables (validate.Ordered is
+// shared by all of them): a witness should show what went into it just before.
+var recent [64]atomic.Pointer[string]
+var recentPos uint64
 
-func newWorld() *world {
-	w := &world{}
-	w.tab = mon.NewTable("", "", true, mon.Scratch())
-	m, err := matcher.New("", "", "", "", "", "")
-	if err != nil {
-		panic(err)
-	}
-	w.cap = mon.NewCaptureRoute("c19capture", m, nil)
-	w.cap.Hook = func(buf []byte) {
-		f := bytes.Fields(buf)
-		if len(f) != 3 {
-			return
-		}
-		id, err := strconv.Atoi(string(f[1]))
-		if err != nil || id < 0 || id >= len(w.arrived) {
-			return
-		}
-		s := atomic.AddInt64(&w.arrSeq, 1)
-		if !atomic.CompareAndSwapInt64(&w.arrived[id], 0, s) {
-			atomic.AddInt64(&w.dup, 1)
+func noteRecent(line *string) { recent[atomic.AddUint64(&recentPos, 1)%64].Store(line) }
+
+func recentCalls(n int) string {
+	pos := atomic.LoadUint64(&recentPos)
+	var out []string
+	for i := uint64(0); i < uint64(n) && i < pos; i++ {
+		if p := recent[(pos-i)%64].Load(); p != nil {
+			out = append([]string{strconv.Quote(*p)}, out...)
 		}
 	}
-	w.tab.AddRoute(w.cap)
-	return w
+	return strings.Join(out, ", ")
 }
 
 var model = porcupine.Model{
-	Init: func() interface{} { return uint32(0) },
+	Init: func() interface{} { return oracle.OrderNone },
 	Step: func(state, input, output interface{}) (bool, interface{}) {
-		ok, next := oracle.MaxRegStep(state.(uint32), input.(uint32), output.(bool))
+		ok, next := oracle.OrderStep(state.(int64), input.(uint32), output.(int))
 		return ok, next
 	},
 	DescribeOperation: func(input, output interface{}) string {
-		return fmt.Sprintf("ts=%d -> accepted=%v", input.(uint32), output.(bool))
+		return fmt.Sprintf("ts=%d -> %s", input.(uint32), outcomeName[output.(int)])
 	},
 }
 
@@ -195,10 +272,11 @@ func findBad(tab *table.Table, canon string, since time.Time, wide bool) (msg, e
 	return "", "", false
 }
 
-func witness(h history, ops []opRec) map[string]interface{} {
+func witness(w *world, h history, ops []opRec) map[string]interface{} {
 	sorted := append([]opRec(nil), ops...)
 	sort.Slice(sorted, func(a, b int) bool { return sorted[a].Call < sorted[b].Call })
-	return map[string]interface{}{"history": h.Index, "dispatchers": len(h.Clients), "names": h.Names, "calls": sorted}
+	return map[string]interface{}{"history": h.Index, "dispatchers": len(h.Clients), "names": h.Names, "calls": sorted, "calls_begun_last_on_all_tables": recentCalls(12),
+		"table_built": w.built, "configuration_changes_on_this_table_latest_last": w.logTail(), "runtime_deletes_on_this_table": atomic.LoadInt64(&w.deletes)}
 }
 
 // ran is what the dispatch phase of one history leaves for the checks.
@@ -207,9 +285,11 @@ type ran struct {
 	all        []opRec
 	byName     map[string][]opRec
 	accepts    int
-	rejects    int
+	rejects    int // definitely rejected
+	unobserved int
 	t0         time.Time
 	sequential bool
+	gone       []*extraRoute // capture routes the history deleted (their content is still judged)
 }
 
 // runPhase dispatches the history against the lane's table.
@@ -221,51 +301,101 @@ func runPhase(res *mon.Result, w *world, h history) *ran {
 	w.arrived = make([]int64, total)
 	w.arrSeq, w.dup = 0, 0
 	w.cap.Take()
+	w.beginHistory(h)
 	sequential := len(h.Clients) == 1
 	t0 := time.Now()
 
 	var stamp int64
+	var finished int32
 	recs := make([][]opRec, len(h.Clients))
 	start := make(chan struct{})
-	var wg sync.WaitGroup
+	var wg, adminWG sync.WaitGroup
 	base := 0
-	seqState := map[string]uint32{}
+	seqState := map[string]int64{}
 	diverged := map[string]bool{}
+	if !sequential && len(h.Admin) > 0 {
+		// the configuration changes of a concurrent history: one more goroutine, each change held back
+		// until the stamp counter reached its position (bounded steps; the dispatchers do not wait for it)
+		adminWG.Add(1)
+		go func() {
+			defer adminWG.Done()
+			<-start
+			for _, a := range h.Admin {
+				for step := 0; step < 200000 && atomic.LoadInt64(&stamp) < int64(a.At) && atomic.LoadInt32(&finished) == 0; step++ {
+					runtime.Gosched()
+				}
+				w.admin(res, a, &stamp)
+			}
+		}()
+	}
 	for c, ops := range h.Clients {
 		wg.Add(1)
 		go func(c int, ops []opSpec, base int) {
 			defer wg.Done()
 			out := make([]opRec, 0, len(ops))
 			<-start
+			nextAdmin := 0
+			prevZero := false
 			for i, o := range ops {
+				if sequential {
+					for nextAdmin < len(h.Admin) && h.Admin[nextAdmin].At <= i {
+						w.admin(res, h.Admin[nextAdmin], &stamp)
+						nextAdmin++
+					}
+				}
 				id := base + i
 				name := h.Names[o.Name]
 				if o.Dot {
 					name = "." + name
 				}
-				line := name + " " + strconv.Itoa(id) + " " + strconv.FormatUint(uint64(o.TS), 10)
+				line := name + " " + strconv.Itoa(id) + " " + o.Text
 				buf := []byte(line)
+				noteRecent(&line)
 				call := atomic.AddInt64(&stamp, 1)
 				w.tab.Dispatch(buf)
 				arr := atomic.LoadInt64(&w.arrived[id])
 				ret := atomic.AddInt64(&stamp, 1)
-				rec := opRec{Client: c, Name: name, canon: oracle.CanonicalName(name), TS: o.TS, ID: id, Call: call, Ret: ret, Accepted: arr != 0, arrival: arr, line: line}
-				out = append(out, rec)
+				rec := opRec{Client: c, Name: name, canon: oracle.CanonicalName(name), TS: o.TS, Text: o.Text, ID: id, Call: call, Ret: ret, Accepted: arr != 0, arrival: arr, line: line}
+				if atomic.LoadInt64(&w.deletes) > 0 {
+					res.Count("calls_on_a_table_after_a_runtime_delete", 1)
+					if !rec.Accepted {
+						res.Count("calls_not_forwarded_on_a_table_after_a_runtime_delete", 1)
+					}
+				}
 				if sequential {
 					// exact oracle and exact bad-metrics lookup after every call
+					st, seen := seqState[rec.canon]
+					if !seen {
+						st = oracle.OrderNone
+					}
+					rec.class = oracle.OrderRejected
+					if rec.Accepted {
+						rec.class = oracle.OrderForwarded
+					} else if w.swallowedNow(rec.canon) {
+						rec.class = oracle.OrderUnobserved
+					}
+					rec.Outcome = outcomeName[rec.class]
+					expectReject := oracle.OrderWouldReject(st, rec.TS)
+					if prevZero && expectReject {
+						res.Count("single_dispatcher_not_newer_point_directly_after_a_zero_timestamp_point", 1)
+					}
+					prevZero = rec.TS == 0
+					out = append(out, rec)
 					if !diverged[rec.canon] {
-						ok, next := oracle.MaxRegStep(seqState[rec.canon], rec.TS, rec.Accepted)
+						ok, next := oracle.OrderStep(st, rec.TS, rec.class)
 						if !ok {
 							diverged[rec.canon] = true // one deviation per name: what follows it proves nothing
 							if rec.Accepted {
-								res.Violate("seq-accepted-not-newer", fmt.Sprintf("single dispatcher: %q accepted although the newest accepted timestamp of %q was already %d", line, rec.canon, seqState[rec.canon]), witness(h, out))
+								res.Violate("seq-accepted-not-newer", fmt.Sprintf("single dispatcher: %q forwarded although the newest accepted timestamp of %q was already %d (%s; calls begun last on all tables, this one last: %s)", line, rec.canon, st, w.state(), recentCalls(6)), witness(w, h, out))
 							} else {
-								res.Violate("seq-rejected-newer", fmt.Sprintf("single dispatcher: %q rejected although it is newer than everything accepted for %q before (newest accepted: %d)", line, rec.canon, seqState[rec.canon]), witness(h, out))
+								res.Violate("seq-rejected-newer", fmt.Sprintf("single dispatcher: %q rejected although it is newer than everything accepted for %q before (newest accepted: %d; %s; calls begun last on all tables, this one last: %s)", line, rec.canon, st, w.state(), recentCalls(6)), witness(w, h, out))
 							}
 						}
 						seqState[rec.canon] = next
 					}
-					if !rec.Accepted {
+					// a line that reached no route without a blacklist entry to explain it was rejected; under a
+					// blacklist entry for the name it was rejected if the (exactly known) state says so
+					if !rec.Accepted && (rec.class == oracle.OrderRejected || (expectReject && !diverged[rec.canon])) {
 						okRec := false
 						var msg, et string
 						for step := 0; step < 2000 && !okRec; step++ {
@@ -278,9 +408,16 @@ func runPhase(res *mon.Result, w *world, h history) *ran {
 						}
 						res.Count("bad_metric_lookups_after_reject", 1)
 						if !okRec {
-							res.Violate("reject-not-reported", fmt.Sprintf("rejected line %q is not what Table.Bad() reports for %q (it has msg=%q err=%q)", line, rec.canon, msg, et), witness(h, out))
+							res.Violate("reject-not-reported", fmt.Sprintf("rejected line %q is not what Table.Bad() reports for %q (it has msg=%q err=%q)", line, rec.canon, msg, et), witness(w, h, out))
 						}
 					}
+				} else {
+					out = append(out, rec)
+				}
+			}
+			if sequential {
+				for ; nextAdmin < len(h.Admin); nextAdmin++ {
+					w.admin(res, h.Admin[nextAdmin], &stamp)
 				}
 			}
 			recs[c] = out
@@ -289,25 +426,47 @@ func runPhase(res *mon.Result, w *world, h history) *ran {
 	}
 	close(start)
 	wg.Wait()
+	atomic.StoreInt32(&finished, 1)
+	adminWG.Wait()
 
 	var all []opRec
 	for _, rs := range recs {
 		all = append(all, rs...)
 	}
 	byName := map[string][]opRec{}
-	rejects, accepts := 0, 0
-	for _, o := range all {
-		byName[o.canon] = append(byName[o.canon], o)
-		if o.Accepted {
-			accepts++
-		} else {
-			rejects++
+	rejects, accepts, unobserved := 0, 0, 0
+	for i := range all {
+		o := &all[i]
+		if !sequential {
+			o.class = oracle.OrderRejected
+			if o.Accepted {
+				o.class = oracle.OrderForwarded
+			} else if w.maybeSwallowed(o.canon, o.Call, o.Ret) {
+				o.class = oracle.OrderUnobserved
+			}
+			o.Outcome = outcomeName[o.class]
 		}
+		switch o.class {
+		case oracle.OrderForwarded:
+			accepts++
+		case oracle.OrderRejected:
+			rejects++
+		default:
+			unobserved++
+		}
+		if o.TS == 0 {
+			res.Count("zero_timestamp_points", 1)
+		}
+		if strings.Contains(o.Text, ".") {
+			res.Count("fractional_timestamp_points", 1)
+		}
+		byName[o.canon] = append(byName[o.canon], *o)
 	}
 	res.Count("calls", len(all))
 	res.Count("accepted", accepts)
 	res.Count("rejected", rejects)
-	return &ran{h: h, all: all, byName: byName, accepts: accepts, rejects: rejects, t0: t0, sequential: sequential}
+	res.Count("unobserved_calls_under_a_matching_blacklist_entry", unobserved)
+	return &ran{h: h, all: all, byName: byName, accepts: accepts, rejects: rejects, unobserved: unobserved, t0: t0, sequential: sequential, gone: w.endHistory()}
 }
 
 // checkPhase judges one dispatched history (everything except the process-wide counters).
@@ -315,30 +474,66 @@ func checkPhase(res *mon.Result, w *world, rn *ran) {
 	h, all, byName, accepts, t0, sequential := rn.h, rn.all, rn.byName, rn.accepts, rn.t0, rn.sequential
 
 	// forwarded nowhere / once
-	got := w.cap.Take()
-	if len(got) != accepts || atomic.LoadInt64(&w.dup) != 0 {
-		res.Violate("forwarded-after-return", fmt.Sprintf("%d lines were in the capture route when their call returned, %d are there at the end (%d ids captured twice)", accepts, len(got), w.dup), witness(h, all))
+	got := 0
+	for _, g := range w.cap.Take() {
+		if !isAggregate(g.Copy) {
+			got++
+		}
 	}
-	res.Count("lines_captured", len(got))
+	if got != accepts || atomic.LoadInt64(&w.dup) != 0 {
+		res.Violate("forwarded-after-return", fmt.Sprintf("%d lines were in the capture route when their call returned, %d are there at the end (%d ids captured twice)", accepts, got, w.dup), witness(w, h, all))
+	}
+	res.Count("lines_captured", got)
+	// the capture routes added by configuration changes: whatever they hold was also forwarded to the catch-all route
+	byID := map[int]*opRec{}
+	for i := range all {
+		byID[all[i].ID] = &all[i]
+	}
+	for _, x := range append(w.liveExtras(), rn.gone...) {
+		for _, g := range x.cap.Take() {
+			if isAggregate(g.Copy) {
+				continue
+			}
+			res.Count("lines_in_capture_routes_added_at_run_time", 1)
+			f := bytes.Fields(g.Copy)
+			id := -1
+			if len(f) == 3 {
+				id, _ = strconv.Atoi(string(f[1]))
+			}
+			if o := byID[id]; o == nil || !o.Accepted {
+				res.Violate("not-forwarded-line-in-a-route", fmt.Sprintf("route %s holds %q, a line that had not reached the catch-all route when its Dispatch call returned", x.key, g.Copy), witness(w, h, all))
+			}
+		}
+	}
 
 	// bad-metrics report: last record per name
 	for canon, ops := range byName {
 		rejected := map[string]bool{}
+		possible := map[string]bool{}
 		lastRejected := ""
 		for _, o := range ops {
-			if !o.Accepted {
+			if o.class == oracle.OrderRejected {
 				rejected[o.line] = true
 				lastRejected = o.line
 			}
+			if o.class == oracle.OrderUnobserved {
+				possible[o.line] = true
+			}
+		}
+		if sequential && len(possible) > 0 {
+			continue // looked up call by call, where the state told which unobserved calls were rejects
 		}
 		var msg, et string
 		var found, ok bool
 		for step := 0; step < 2000; step++ {
 			msg, et, found = findBad(w.tab, canon, t0, step > 1000)
-			if len(rejected) == 0 {
+			switch {
+			case len(rejected) > 0:
+				ok = found && et == notNewer && (rejected[msg] || possible[msg]) && (!sequential || msg == lastRejected)
+			case len(possible) > 0:
+				ok = !found || (et == notNewer && possible[msg])
+			default:
 				ok = !found
-			} else {
-				ok = found && et == notNewer && rejected[msg] && (!sequential || msg == lastRejected)
 			}
 			if (ok && len(rejected) > 0) || (len(rejected) == 0 && (!ok || step >= 2)) {
 				// presence: as soon as it is there; absence: looked three times
@@ -348,10 +543,10 @@ func checkPhase(res *mon.Result, w *world, rn *ran) {
 		}
 		res.Count("bad_metric_lookups_at_end", 1)
 		if !ok && len(rejected) > 0 {
-			res.Violate("reject-not-reported", fmt.Sprintf("%d points of %q were rejected; Table.Bad() has found=%v msg=%q err=%q for it", len(rejected), canon, found, msg, et), witness(h, ops))
+			res.Violate("reject-not-reported", fmt.Sprintf("%d points of %q were rejected; Table.Bad() has found=%v msg=%q err=%q for it", len(rejected), canon, found, msg, et), witness(w, h, ops))
 		}
 		if !ok && len(rejected) == 0 {
-			res.Violate("accepted-reported-bad", fmt.Sprintf("every point of %q was forwarded, yet Table.Bad() reports msg=%q err=%q for it", canon, msg, et), witness(h, ops))
+			res.Violate("accepted-reported-bad", fmt.Sprintf("no point of %q was rejected, yet Table.Bad() reports msg=%q err=%q for it", canon, msg, et), witness(w, h, ops))
 		}
 	}
 
@@ -366,32 +561,34 @@ func checkPhase(res *mon.Result, w *world, rn *ran) {
 			if o.Accepted {
 				hasAcc = true
 				if j, dupTS := seenTS[o.TS]; dupTS {
-					res.Violate("accepted-same-timestamp-twice", fmt.Sprintf("%q: two points with timestamp %d were both forwarded (%q and %q)", canon, o.TS, ops[j].line, o.line), witness(h, ops))
+					res.Violate("accepted-same-timestamp-twice", fmt.Sprintf("%q: two points with timestamp %d were both forwarded (%q and %q)", canon, o.TS, ops[j].line, o.line), witness(w, h, ops))
 				}
 				seenTS[o.TS] = i
-			} else {
+			} else if o.class == oracle.OrderRejected {
 				hasRej = true
 			}
-			maxDoneAcc, maxOther := uint32(0), uint32(0)
+			maxDoneAcc, maxOther := int64(-1), int64(-1)
+			doneLine := ""
 			for j, p := range ops {
 				if j == i {
 					continue
 				}
-				if p.Accepted && p.Ret < o.Call && p.TS > maxDoneAcc {
-					maxDoneAcc = p.TS
+				if p.Accepted && p.Ret < o.Call && int64(p.TS) > maxDoneAcc {
+					maxDoneAcc = int64(p.TS)
+					doneLine = p.line
 				}
-				if p.Call < o.Ret && p.TS > maxOther {
-					maxOther = p.TS
+				if p.Call < o.Ret && int64(p.TS) > maxOther {
+					maxOther = int64(p.TS)
 				}
 				if j > i && p.Call < o.Ret {
 					overlaps++
 				}
 			}
-			if o.Accepted && o.TS <= maxDoneAcc {
-				res.Violate("accepted-not-newer", fmt.Sprintf("%q was forwarded although a point of %q with timestamp %d had been accepted by a call that returned before this one began", o.line, canon, maxDoneAcc), witness(h, ops))
+			if o.Accepted && int64(o.TS) <= maxDoneAcc {
+				res.Violate("accepted-not-newer", fmt.Sprintf("%q was forwarded although %q (timestamp %d) had been forwarded by a call that returned before this one began (%s)", o.line, doneLine, maxDoneAcc, w.state()), witness(w, h, ops))
 			}
-			if !o.Accepted && o.TS > maxOther {
-				res.Violate("rejected-newest", fmt.Sprintf("%q was rejected although no other point of %q that could have preceded it has a timestamp >= %d (largest: %d)", o.line, canon, o.TS, maxOther), witness(h, ops))
+			if o.class == oracle.OrderRejected && o.TS > 0 && int64(o.TS) > maxOther {
+				res.Violate("rejected-newest", fmt.Sprintf("%q was rejected although no other point of %q that could have preceded it has a timestamp >= %d (largest: %d)", o.line, canon, o.TS, maxOther), witness(w, h, ops))
 			}
 		}
 		if hasAcc && hasRej {
@@ -408,20 +605,20 @@ func checkPhase(res *mon.Result, w *world, rn *ran) {
 			sort.Slice(acc, func(a, b int) bool { return acc[a].arrival < acc[b].arrival })
 			for i := 1; i < len(acc); i++ {
 				if acc[i].TS <= acc[i-1].TS {
-					res.Violate("arrival-order", fmt.Sprintf("single dispatcher: %q reached the route after %q", acc[i].line, acc[i-1].line), witness(h, ops))
+					res.Violate("arrival-order", fmt.Sprintf("single dispatcher: %q reached the route after %q", acc[i].line, acc[i-1].line), witness(w, h, ops))
 				}
 			}
 			continue // already compared call by call with the sequential oracle
 		}
 		pops := make([]porcupine.Operation, len(ops))
 		for i, o := range ops {
-			pops[i] = porcupine.Operation{ClientId: o.Client, Input: o.TS, Call: o.Call, Output: o.Accepted, Return: o.Ret}
+			pops[i] = porcupine.Operation{ClientId: o.Client, Input: o.TS, Call: o.Call, Output: o.class, Return: o.Ret}
 		}
 		r, _ := porcupine.CheckOperationsVerbose(model, pops, 60*time.Second)
 		res.Count("name_histories_checked_for_linearizability", 1)
 		switch r {
 		case porcupine.Illegal:
-			res.Violate("not-linearizable", fmt.Sprintf("the %d calls for %q (%d dispatchers) cannot be explained by any order of atomic accept-iff-newer steps consistent with their call/return times", len(ops), canon, len(h.Clients)), witness(h, ops))
+			res.Violate("not-linearizable", fmt.Sprintf("the %d calls for %q (%d dispatchers) cannot be explained by any order of atomic accept-iff-newer steps consistent with their call/return times (%s):%s", len(ops), canon, len(h.Clients), w.state(), brief(ops)), witness(w, h, ops))
 		case porcupine.Unknown:
 			res.Inconclusive(fmt.Sprintf("history %d name %q: linearizability search timed out after 60s (%d calls)", h.Index, canon, len(ops)))
 		}
@@ -430,7 +627,7 @@ func checkPhase(res *mon.Result, w *world, rn *ran) {
 	if nontrivial && (sequential || overlaps > 0) {
 		var b strings.Builder
 		for _, o := range all {
-			fmt.Fprintf(&b, "%s/%d/%v;", o.canon[strings.LastIndex(o.canon, ".")+1:], o.TS, o.Accepted)
+			fmt.Fprintf(&b, "%s/%s/%d;", o.canon[strings.LastIndex(o.canon, ".")+1:], o.Text, o.class)
 		}
 		res.NonTrivial(fmt.Sprintf("%d:%s", len(h.Clients), b.String()))
 	}
@@ -439,13 +636,28 @@ func checkPhase(res *mon.Result, w *world, rn *ran) {
 	}
 }
 
+// brief renders a name's calls in call order, at most 24 of them, for a violation message.
+func brief(ops []opRec) string {
+	var b strings.Builder
+	for i, o := range ops {
+		if i == 24 {
+			fmt.Fprintf(&b, " ... (%d more)", len(ops)-i)
+			break
+		}
+		fmt.Fprintf(&b, " [%d-%d %s %s]", o.Call, o.Ret, o.Text, o.Outcome)
+	}
+	return b.String()
+}
+
 func main() {
 	res := mon.NewResult("C19")
-	res.Rule = "one history = 2..5 fresh names of equal length (half of them also written with a leading dot, one name taking ~half the traffic), 1 (every fifth history) or 2..8 dispatcher goroutines released together, 10..40 Table.Dispatch calls each, timestamps from 1..R with R in {3,6,12,30} (uniform, or rising with stragglers), every tenth history shifted up to 2^32-1 (half of those keeping a quarter of the points low); non-trivial = some name had both a forwarded and a rejected point AND (single dispatcher OR at least two calls for one name overlapped in time); distinct = different sequence of (name, timestamp, outcome)"
+	res.Rule = "one history = 2..5 fresh names of equal length (half of them also written with a leading dot, one name taking ~half the traffic), 1 (every fifth history) or 2..8 dispatcher goroutines released together, 10..40 Table.Dispatch calls each, timestamps from 1..R with R in {3,6,12,30} (uniform, or rising with stragglers), every tenth history shifted up to 2^32-1 (half of those keeping a quarter of the points low); in half of the histories every sixth point (every fourth with a single dispatcher) takes a boundary timestamp (0, 0.5, 1, the name's last one, last-1, last plus a fraction, last+1, 2^31-1, 2^31, 2^32-2, 2^32-1, 4294967295.5); in half of the histories 1..4 configuration changes (add/delete/modify route, add/delete blacklist entry, rewriter, aggregator; half of the blacklist entries match one of the history's names) are applied between (single dispatcher) or during the calls; tables built in four ways (TOML, TOML sections, table.New + Add*, init commands) and kept for many histories; non-trivial = some name had both a forwarded and a rejected point AND (single dispatcher OR at least two calls for one name overlapped in time); distinct = different sequence of (name, timestamp field, outcome)"
 	res.Assume("Dispatch to a capture route is synchronous: a forwarded line is in the capture route before Table.Dispatch returns (read in table.Dispatch / mon.CaptureRoute)")
 	res.Assume("the state map of validate.Ordered is process-wide: names are fresh per history and every run is a fresh process")
 	res.Assume("carbon20.ValidatePacket strips one leading dot from the name it returns (read in go-metrics20 validate.go); '.foo' and 'foo' are one name")
-	res.Assume("timestamps are integral and in [1, 2^32-1]; timestamp 0 is not generated (the property only speaks about positive timestamps)")
+	res.Assume("a point's timestamp is the whole second its timestamp field truncates to (carbon timestamps are seconds; '10.2' and '10.9' are the same second); fields stay in [0, 2^32); a first point with timestamp 0 may be forwarded or rejected (the property promises acceptance only for positive timestamps)")
+	res.Assume("order validation comes before the blacklist (properties.jsonl C19 anchors): a line dropped by a blacklist entry has taken part in order validation; a call is 'unobserved' when its line reached no route and a blacklist entry matching its name was possibly in force (entry added by a call that began before the Dispatch returned and not deleted by a call that returned before the Dispatch began)")
+	res.Assume("no configuration change touches the catch-all capture route; aggregators that match the generated names do not drop the raw point, dropRaw aggregators match other names")
 	n := mon.N(300, 12000)
 	if _, k := mon.Shard(); k >= 4 && mon.Thorough() {
 		n = 30000 // the design's count needs the driver to spread the histories over >= 4 processes
@@ -469,6 +681,7 @@ func main() {
 	}
 	worlds := make([]*world, lanes)
 	ranCount := 0
+	generation := 0
 	for lo := 0; lo < len(mine); lo += lanes {
 		hi := lo + lanes
 		if hi > len(mine) {
@@ -477,8 +690,14 @@ func main() {
 		round := mine[lo:hi]
 		if (lo/lanes)%300 == 0 {
 			for l := range worlds {
-				worlds[l] = newWorld() // fresh tables (and bad-metrics reports) every 300 rounds
+				if worlds[l] != nil {
+					worlds[l].retire()
+				}
+				res.LogCase("building table for lane %d: kind %d", l, (l+generation)%4)
+				worlds[l] = newWorld((l+generation)%4, generation*lanes+l) // fresh tables (and bad-metrics reports) every 300 rounds
+				res.Count("tables_built_"+worlds[l].built, 1)
 			}
+			generation++
 		}
 		hs := make([]history, len(round))
 		for k, i := range round {
@@ -487,9 +706,9 @@ func main() {
 			for _, c := range hs[k].Clients {
 				calls += len(c)
 			}
-			res.LogCase("history %d names=%d dispatchers=%d calls=%d range=%d base=%d", i, len(hs[k].Names), len(hs[k].Clients), calls, hs[k].Range, hs[k].Base)
+			res.LogCase("history %d lane=%d table=%s names=%d dispatchers=%d calls=%d range=%d base=%d boundary_timestamps=%v configuration_changes=%s", i, k, worlds[k].built, len(hs[k].Names), len(hs[k].Clients), calls, hs[k].Range, hs[k].Base, hs[k].Edgy, describeAdmin(hs[k].Admin))
 			if ranCount+k < 2 {
-				res.Sample(map[string]interface{}{"history": i, "names": hs[k].Names, "dispatchers": len(hs[k].Clients), "calls": calls, "timestamp_range": hs[k].Range, "timestamp_base": hs[k].Base})
+				res.Sample(map[string]interface{}{"history": i, "names": hs[k].Names, "dispatchers": len(hs[k].Clients), "calls": calls, "timestamp_range": hs[k].Range, "timestamp_base": hs[k].Base, "boundary_timestamps": hs[k].Edgy, "configuration_changes": describeAdmin(hs[k].Admin)})
 			}
 		}
 		deltas := mon.NewDeltas(mon.KeyIn, mon.KeyInvalid, mon.KeyOutOfOrder, mon.KeyUnroutable, mon.KeyBlacklist)
@@ -504,26 +723,37 @@ func main() {
 		}
 		wg.Wait()
 		// counters are incremented inside Dispatch, before it returns
-		calls, rejects := 0, 0
+		calls, rejects, unobserved, forwarded := 0, 0, 0, 0
 		var everything []opRec
 		for _, o := range outs {
 			calls += len(o.all)
 			rejects += o.rejects
+			unobserved += o.unobserved
+			forwarded += o.accepts
 			everything = append(everything, o.all...)
 		}
 		roundWitness := func() map[string]interface{} {
-			return map[string]interface{}{"histories_of_the_round": round, "calls": everything}
+			changes := map[string][]string{}
+			for k := range round {
+				changes[fmt.Sprintf("history %d (table built %s)", round[k], worlds[k].built)] = worlds[k].logTail()
+			}
+			return map[string]interface{}{"histories_of_the_round": round, "calls": everything, "configuration_changes_latest_last": changes}
 		}
-		if d := deltas.Get(mon.KeyOutOfOrder); d != int64(rejects) {
-			res.Violate("out-of-order-count", fmt.Sprintf("%d calls were not forwarded, unit=Err.type=out_of_order moved by %d", rejects, d), roundWitness())
+		dOOO, dBlack := deltas.Get(mon.KeyOutOfOrder), deltas.Get(mon.KeyBlacklist)
+		if dOOO < int64(rejects) || dOOO > int64(rejects+unobserved) {
+			res.Violate("out-of-order-count", fmt.Sprintf("%d calls were rejected (and %d more reached no route under a matching blacklist entry), unit=Err.type=out_of_order moved by %d", rejects, unobserved, dOOO), roundWitness())
+		}
+		if dOOO+dBlack != int64(calls-forwarded) {
+			res.Violate("out-of-order-count", fmt.Sprintf("%d of %d calls were not forwarded; unit=Err.type=out_of_order moved by %d and direction=blacklist by %d", calls-forwarded, calls, dOOO, dBlack), roundWitness())
 		}
 		if d := deltas.Get(mon.KeyIn); d != int64(calls) {
 			res.Violate("in-count", fmt.Sprintf("%d calls, unit=Metric.direction=in moved by %d", calls, d), roundWitness())
 		}
-		if a, b, c := deltas.Get(mon.KeyInvalid), deltas.Get(mon.KeyUnroutable), deltas.Get(mon.KeyBlacklist); a != 0 || b != 0 || c != 0 {
-			res.Violate("other-count", fmt.Sprintf("generated lines are valid and routable, yet invalid/unroutable/blacklist counters moved by %d/%d/%d", a, b, c), roundWitness())
+		if a, b := deltas.Get(mon.KeyInvalid), deltas.Get(mon.KeyUnroutable); a != 0 || b != 0 || dBlack > int64(unobserved) {
+			res.Violate("other-count", fmt.Sprintf("generated lines are valid and routable and %d of them can have met a blacklist entry, yet invalid/unroutable/blacklist counters moved by %d/%d/%d", unobserved, a, b, dBlack), roundWitness())
 		}
 		res.Count("counter_identities_checked_rounds", 1)
+		res.Count("lines_counted_as_blacklisted", int(dBlack))
 		for k := range round {
 			wg.Add(1)
 			go func(k int) {
@@ -537,9 +767,19 @@ func main() {
 	}
 	ran := ranCount
 	res.Floor("histories", ran, n)
-	ov, _ := res.Extra["same_name_call_pairs_overlapping_in_time"].(int)
-	res.Floor("same_name_call_pairs_overlapping_in_time", ov, n/2)
-	rj, _ := res.Extra["rejected"].(int)
-	res.Floor("rejected", rj, n)
+	cnt := func(k string) int { v, _ := res.Extra[k].(int); return v }
+	res.Floor("same_name_call_pairs_overlapping_in_time", cnt("same_name_call_pairs_overlapping_in_time"), n/2)
+	res.Floor("rejected", cnt("rejected"), n)
+	// what the configuration changes and the boundary timestamps were added for must have happened
+	res.Floor("runtime_deletes", cnt("config_deletes_applied"), n/4)
+	for _, k := range []string{"delRoute", "delBlacklist", "delRewriter", "delAggregator", "addRoute", "addBlacklist", "addRewriter", "addAggregator"} {
+		res.Floor("config_change_"+k, cnt("config_change_"+k), n/30)
+	}
+	res.Floor("config_changes_through_admin_command", cnt("config_changes_through_admin_command"), n/100)
+	res.Floor("calls_not_forwarded_on_a_table_after_a_runtime_delete", cnt("calls_not_forwarded_on_a_table_after_a_runtime_delete"), n)
+	res.Floor("zero_timestamp_points", cnt("zero_timestamp_points"), n/3)
+	res.Floor("fractional_timestamp_points", cnt("fractional_timestamp_points"), n/3)
+	res.Floor("single_dispatcher_not_newer_point_directly_after_a_zero_timestamp_point", cnt("single_dispatcher_not_newer_point_directly_after_a_zero_timestamp_point"), n/50)
+	res.Floor("unobserved_calls_under_a_matching_blacklist_entry", cnt("unobserved_calls_under_a_matching_blacklist_entry"), n/20)
 	res.Write()
 }
